@@ -23,7 +23,7 @@ SPEND = ['spend_missing', 'spend_spent', 'spend_other_fork', 'spend_same_block',
          'replayed_sig_new_outputs', 'spend_noncurve_key_output']
 VALUE = ['reward_plus_one', 'reward_plus_other_fee', 'out_zero', 'out_max_plus_one', 'outs_sum_over_max',
          'outs_exceed_inputs', 'out_2_64_minus_1', 'two_rewards', 'reward_not_first', 'reward_two_inputs',
-         'reward_real_ref', 'low_height_mint', 'outs_exceed_inputs_comp']
+         'reward_real_ref', 'low_height_mint', 'outs_exceed_inputs_comp', 'reward_split_over', 'reward_prev_era']
 HEADER = ['pow_not_below', 'target_plus_1', 'target_minus_1', 'target_initial', 'target_parent_at_boundary',
           'target_elapsed_off_by_one', 'target_float', 'height_plus_2', 'height_same', 'height_low',
           'height_low_pure', 'reward_height_differs', 'ts_equal_parent', 'ts_before_parent', 'ts_now_plus_31',
@@ -399,6 +399,32 @@ def f_low_height_steal(sim, rb, op, d, a, b):
 
 def f_reward_plus_one(sim, rb, op, d, a, b):
     d['reward_extra'] = 1 + (b % 3 == 2) * (a * 1000)
+
+
+def f_reward_split_over(sim, rb, op, d, a, b):
+    """Reward split over several outputs, each within subsidy + fees, together above it."""
+    h = rb.height + 1
+    allow = rules.subsidy(h) + d['fees']
+    if allow <= 0:
+        return False
+    n = 2 + b % 4
+    variant = a % 3
+    if variant == 0:
+        vals = [allow, 1]
+    elif variant == 1:
+        vals = [allow] * n
+    else:
+        vals = [allow - 1, 2] if allow > 1 else [allow, allow]
+    d['reward'] = reward_tx(h, [(v, key((b + i) % N_KEYS)) for i, v in enumerate(vals)])
+
+
+def f_reward_prev_era(sim, rb, op, d, a, b):
+    """Claims the subsidy of the previous height (only differs on a halving boundary)."""
+    h = rb.height + 1
+    if rules.subsidy(h - 1) == rules.subsidy(h):
+        return False
+    sim.res.bump('probe:halving_forgery')
+    d['reward_extra'] = rules.subsidy(h - 1) - rules.subsidy(h) - (a % 2) * (rules.subsidy(h - 1) - rules.subsidy(h) - 1)
 
 
 def f_reward_plus_other_fee(sim, rb, op, d, a, b):
